@@ -791,6 +791,10 @@ def value_attr(I, obj, name):
             return tuple(I.builtins[nm] for nm in chain)
         if name == "__module__":
             return "builtins"
+        if obj.name == "dict" and name == "fromkeys":
+            return Builtin("dict.fromkeys", lambda keys, value=None: {_key(k_): value for k_ in iterate(I, keys)})
+        if obj.name in ("int", "float") and name in ("fromhex", "from_bytes"):
+            raise AnalysisError(f"{obj.name}.{name} is not modelled")
         if not name.startswith("__"):
             return Builtin(f"{obj.name}.{name}", lambda self_, *a, **k: I.call(I.getattr(self_, name), list(a), dict(k)))
     if isinstance(obj, peg.PE):
